@@ -2,7 +2,7 @@
    element, scanf value per token) arrives as two association tables. *)
 From Coq.Strings Require Import Byte.
 From EsVerif.Common Require Import Base Bytes.
-From EsVerif.C04 Require Import TextModel Spec.
+From EsVerif.C04 Require Import TextModel Spec FmtModel.
 From Coq Require Import PrimInt63.
 From Coq Require Uint63.
 
@@ -45,9 +45,11 @@ Definition in_scope (d : byte) (t : table) : bool := table_ok_b t && delim_ok_b 
 
 (* Recfile(mode='w', delim=d).write(t); Recfile(mode='r', dtype=t.dtype, delim=d).read()
    text = the whole file; out = the array read back (or the error class) *)
+Definition m_recfile_gen (F P : nat -> list byte -> list byte) (d : byte) (t : table) : list byte * result table :=
+  let text := write_text F d t in
+  (text, read_text P d (tdt t) (count_lines text) text).
 Definition m_recfile (ft pt : tab3) (d : byte) (t : table) : list byte * result table :=
-  let text := write_text (F_of ft) d t in
-  (text, read_text (P_of pt) d (tdt t) (count_lines text) text).
+  m_recfile_gen (F_of ft) (P_of pt) d t.
 (* bits added to the verdict: +4 the case lies in the known-finding class, +8 the supplied oracle
    violates the contract H_num on an in-scope case *)
 Definition extra_bits (ft pt : tab3) (d : byte) (t : table) : Z :=
@@ -62,10 +64,12 @@ Definition v_recfile (ft pt : tab3) (d : byte) (t : table) (text : list byte) (o
 
 (* sfile.write(t, f, delim=d); sfile.read(f, header=True)
    text = the data section of the file (after the header); h = the stored _DELIM and _DTYPE *)
-Definition m_sfile (ft pt : tab3) (d : byte) (t : table) : list byte * hdr * result table :=
-  let text := write_text (F_of ft) d t in
+Definition m_sfile_gen (F P : nat -> list byte -> list byte) (d : byte) (t : table) : list byte * hdr * result table :=
+  let text := write_text F d t in
   (text, (header_delim d, header_dtype (tdt t)),
-   read_text (P_of pt) d (tdt t) (Z.of_nat (length (trows t))) text).
+   read_text P d (tdt t) (Z.of_nat (length (trows t))) text).
+Definition m_sfile (ft pt : tab3) (d : byte) (t : table) : list byte * hdr * result table :=
+  m_sfile_gen (F_of ft) (P_of pt) d t.
 Definition v_sfile (ft pt : tab3) (d : byte) (t : table) (text : list byte) (h : hdr) (out : result table) : Z :=
   let m := m_sfile ft pt d t in
   verdict (bytes_eqb (fst (fst m)) text && hdr_eqb (snd (fst m)) h && result_eqb table_eqb (snd m) out)
@@ -75,3 +79,21 @@ Definition v_sfile (ft pt : tab3) (d : byte) (t : table) (text : list byte) (h :
 (* contract monitor of the oracle, and the known-finding class of a case *)
 Definition m_contract (ft pt : tab3) (t : table) : Z := if fcontract_b (F_of ft) (P_of pt) t then 0 else 1.
 Definition m_kf (d : byte) (t : table) : Z := if kf_leading_ws_after_numeric d t then 1 else 0.
+
+(* ------------------------------------------------------------------ the same with the model's own printf / strtod
+   (FmtModel.F_model / P_model, precisions from Gen.v): no oracle is supplied by the harness *)
+Definition m_recfile2 := m_recfile_gen F_model P_model.
+Definition m_sfile2 := m_sfile_gen F_model P_model.
+Definition extra_bits2 (d : byte) (t : table) : Z :=
+  (if kf_leading_ws_after_numeric d t then 4 else 0)
+  + (if in_scope d t && negb (fcontract_b F_model P_model t) then 8 else 0).
+Definition v_recfile2 (d : byte) (t : table) (text : list byte) (out : result table) : Z :=
+  let m := m_recfile2 d t in
+  verdict (bytes_eqb (fst m) text && result_eqb table_eqb (snd m) out)
+          (if in_scope d t then roundtrip_check t out else true)
+  + extra_bits2 d t.
+Definition v_sfile2 (d : byte) (t : table) (text : list byte) (h : hdr) (out : result table) : Z :=
+  let m := m_sfile2 d t in
+  verdict (bytes_eqb (fst (fst m)) text && hdr_eqb (snd (fst m)) h && result_eqb table_eqb (snd m) out)
+          (if in_scope d t then roundtrip_check t out && header_check d t h else true)
+  + extra_bits2 d t.
